@@ -10,7 +10,9 @@ import (
 	"net"
 	"os"
 	"runtime"
+	"strings"
 	"sync"
+	"sync/atomic"
 	"time"
 )
 
@@ -31,6 +33,7 @@ const (
 	evCancel       = 14
 	evClientRecv   = 15
 	evClientClosed = 16
+	evDefLog       = 17
 )
 
 type lcEvent struct {
@@ -44,9 +47,10 @@ type lcWorld struct {
 	cond     *sync.Cond
 	events   []lcEvent
 	conns    []*lcMemConn // by connection number (order in which Accept handed them out)
-	failed   []string   // harness-level problems (timeouts while waiting)
-	sdGID    uint64     // goroutine currently running Shutdown (its Close calls are Shutdown's)
-	cancelFn func()     // cancels the serve context
+	failed   []string     // harness-level problems (timeouts while waiting)
+	sdGID    uint64       // goroutine currently running Shutdown (its Close calls are Shutdown's)
+	cancelFn func()       // cancels the serve context
+	id       int          // run number (part of every error text, so that log lines can be attributed)
 }
 
 // curGID returns the number of the calling goroutine (only used to tell Shutdown's Close calls from
@@ -64,10 +68,37 @@ func curGID() uint64 {
 	return id
 }
 
+var lcWorlds sync.Map // run number -> *lcWorld, for the capture of the default logger
+var lcWorldSeq atomic.Int64
+
 func newWorld() *lcWorld {
-	w := &lcWorld{}
+	w := &lcWorld{id: int(lcWorldSeq.Add(1))}
 	w.cond = sync.NewCond(&w.mu)
+	lcWorlds.Store(w.id, w)
 	return w
+}
+
+// lcLogWriter receives what the server's DEFAULT onErrorFunc prints through the standard logger (used
+// when OnErrorFunc is unset) and records it as an event of the run it belongs to: the validator can
+// then tell "OnErrorFunc called" (event 10) from "logged by default" (event 17)
+type lcLogWriter struct{}
+
+func (lcLogWriter) Write(p []byte) (int, error) {
+	line := string(p)
+	if i := strings.Index(line, "#r="); i >= 0 {
+		run, id := -1, -1
+		fmt.Sscanf(line[i:], "#r=%d#c=%d#", &run, &id)
+		if v, ok := lcWorlds.Load(run); ok {
+			w := v.(*lcWorld)
+			w.mu.Lock()
+			if id >= 0 && id < len(w.conns) {
+				w.conns[id].errsSeen++
+			}
+			w.logLocked(lcEvent{code: evDefLog})
+			w.mu.Unlock()
+		}
+	}
+	return len(p), nil
 }
 
 // logLocked appends an event; the caller holds w.mu
@@ -129,11 +160,12 @@ func (a lcMemAddr) String() string  { return fmt.Sprintf("mem:%d", a.id) }
 
 // memErr is the error of a closed in-memory connection / listener; carries the connection number
 type memErr struct {
+	run  int
 	id   int
 	what string
 }
 
-func (e memErr) Error() string { return fmt.Sprintf("memconn #c=%d# %s", e.id, e.what) }
+func (e memErr) Error() string { return fmt.Sprintf("memconn #r=%d#c=%d# %s", e.run, e.id, e.what) }
 
 // lcMemConn is the server side of an in-memory connection; the client side are the methods cl*.
 type lcMemConn struct {
@@ -160,6 +192,7 @@ type lcMemConn struct {
 	slowRead       bool           // the client does not read: a server Write delivers half and blocks until resumed
 	writeBlocked   bool           // a server Write is in progress (blocked on the client)
 	resumes        int            // blocked writes the client has allowed to complete
+	closeErr       bool           // the first Close returns an error
 	closeHook      func()         // run by the close callback of this connection (after it has been logged)
 	errsExpected   int            // errors handed to the server that it reports through onErrorFunc
 	errsSeen       int            // OnErrorFunc calls attributed to this connection
@@ -181,7 +214,7 @@ func (c *lcMemConn) Read(p []byte) (int, error) {
 			w.logLocked(lcEvent{code: evRead, c: c.id, a: 3})
 			c.errsExpected++
 			w.mu.Unlock()
-			return 0, memErr{c.id, "read on closed connection"}
+			return 0, memErr{c.w.id, c.id, "read on closed connection"}
 		}
 		if len(c.toServer) > 0 {
 			chunk := c.toServer[0]
@@ -226,12 +259,12 @@ func (c *lcMemConn) Write(p []byte) (int, error) {
 	if c.srvClosed {
 		w.logLocked(lcEvent{code: evWrite, c: c.id, a: 0})
 		c.errsExpected++
-		return 0, memErr{c.id, "write on closed connection"}
+		return 0, memErr{c.w.id, c.id, "write on closed connection"}
 	}
 	if c.failWrites || c.clientClosed {
 		w.logLocked(lcEvent{code: evWrite, c: c.id, a: 0})
 		c.errsExpected++
-		return 0, memErr{c.id, "connection reset by peer"}
+		return 0, memErr{c.w.id, c.id, "connection reset by peer"}
 	}
 	if c.slowRead {
 		// zero buffering: the first half is taken, the rest waits for the client to read on
@@ -246,7 +279,7 @@ func (c *lcMemConn) Write(p []byte) (int, error) {
 		if c.resumes == 0 {
 			w.logLocked(lcEvent{code: evWrite, c: c.id, a: 0})
 			c.errsExpected++
-			return half, memErr{c.id, "write on closed connection"}
+			return half, memErr{c.w.id, c.id, "write on closed connection"}
 		}
 		c.resumes--
 		c.toClient = append(c.toClient, p[half:]...)
@@ -272,10 +305,17 @@ func (c *lcMemConn) Close() error {
 		if own {
 			c.errsExpected++ // Shutdown ignores the error of its Close, everybody else reports it
 		}
-		return memErr{c.id, "close of closed connection"} // as net.Conn does
+		return memErr{c.w.id, c.id, "close of closed connection"} // as net.Conn does
 	}
 	c.srvClosed = true
 	w.cond.Broadcast()
+	if c.closeErr {
+		// the socket is closed but Close reports an error (on demand)
+		if own {
+			c.errsExpected++
+		}
+		return memErr{c.w.id, c.id, "close failed"}
+	}
 	return nil
 }
 
@@ -354,7 +394,7 @@ func (l *memListener) Accept() (net.Conn, error) {
 	defer func() { l.accepting-- }()
 	for {
 		if l.closed {
-			return nil, memErr{-1, "listener closed"}
+			return nil, memErr{l.w.id, -1, "listener closed"}
 		}
 		if len(l.pending) > 0 {
 			c := l.pending[0]
@@ -378,7 +418,7 @@ func (l *memListener) Close() error {
 	w.mu.Lock()
 	defer w.mu.Unlock()
 	if l.closed {
-		return memErr{-1, "listener already closed"} // as net.TCPListener does
+		return memErr{l.w.id, -1, "listener already closed"} // as net.TCPListener does
 	}
 	l.closed = true
 	w.cond.Broadcast()
